@@ -1,10 +1,13 @@
 import SparkxVerif.Core.Proto
 import SparkxVerif.Core.Ecc
+import SparkxVerif.Gen.Ecc
 
 /-! driver ops for C18 (the generic model of `Core/Ecc.lean` run at `Float` with the C library):
   `p <n> <m|-> <hex(weight_quantity)> <E,charge,baryon,strangeness,x,y;...|.>`  -> `ok <re> <im>` | `err value|zerodiv`
   `l <n> <m|-> <xs;..> <ys;..> <nz> <plane|plane|..>`, plane = `row/row/..`, row = `v;v;..` (grid_[i][j][k])
                                                                                  -> `ok <re> <im>` | `err value|zerodiv`
+  `gp …` / `gl …` (same fields as `p` / `l`): the functions GENERATED from the current source (`Gen/Ecc.lean`,
+  tie T) run at `Float`; `gp` hands the weight string to the generated if-chain as it is
 -/
 namespace SparkxVerif.Drv.C18
 open SparkxVerif.Proto SparkxVerif.Ecc
@@ -36,6 +39,14 @@ def handle : List String → String
   | ["l", n, m, xs, ys, nz, grid] =>
     match n.toInt?, optInt? m, floatList? xs, floatList? ys, nz.toNat?, grid? grid with
     | some n, some m, some xs, some ys, some nz, some g => showRes (eccLattice floatOps n m ⟨xs, ys, nz, g⟩)
+    | _, _, _, _, _, _ => "bad-op"
+  | ["gp", n, m, wq, ps] =>
+    match n.toInt?, optInt? m, unhex? wq, parts? ps with
+    | some n, some m, some wq, some ps => showRes (SparkxVerif.Gen.Ecc.particles floatOps n m wq ps)
+    | _, _, _, _ => "bad-op"
+  | ["gl", n, m, xs, ys, nz, grid] =>
+    match n.toInt?, optInt? m, floatList? xs, floatList? ys, nz.toNat?, grid? grid with
+    | some n, some m, some xs, some ys, some nz, some g => showRes (SparkxVerif.Gen.Ecc.lattice floatOps n m ⟨xs, ys, nz, g⟩)
     | _, _, _, _, _, _ => "bad-op"
   | _ => "bad-op"
 
